@@ -543,7 +543,9 @@ func c03TwoTx(r *vc.Run) {
 		held := make(chan struct{})
 		bArrived := make(chan struct{}, 4)
 		var once sync.Once
-		w.TC.AddRule(&faketc.Rule{Name: "c03c", Match: func(q *faketc.Req) bool { return q.Msg.Type == wire.TBranchRegister && (q.TxName == na || q.TxName == nb) }, Do: func(q *faketc.Req) bool {
+		w.TC.AddRule(&faketc.Rule{Name: "c03c", Match: func(q *faketc.Req) bool {
+			return q.Msg.Type == wire.TBranchRegister && (q.TxName == na || q.TxName == nb)
+		}, Do: func(q *faketc.Req) bool {
 			switch order {
 			case "a-register-held":
 				if q.TxName == na && q.NthOfKind == 1 {
